@@ -31,3 +31,4 @@ UNITS = [
     ("C20.initial_surface_water.layer_water_by_area_and_water_partition", IG.unit_initial_surface_water),
 ]
 from props.c20_ext2 import UNITS as _U2; UNITS = UNITS + _U2
+from props.c20_ext3 import UNITS as _U3; UNITS = UNITS + _U3
